@@ -310,6 +310,18 @@ type world struct {
 	node    incr.INode
 	observe func() func()
 	read    func() obs
+	// fault injection: the operator's user function panics once, on one chosen key
+	faultArmed bool
+	faultKey   int
+	faultFired bool
+}
+
+// hit is called by every user function handed to an operator, with the key it was called for.
+func (w *world) hit(k int) {
+	if w.faultArmed && k == w.faultKey {
+		w.faultArmed, w.faultFired = false, true
+		panic(fmt.Sprintf("injected fault: user function called for key %d", k))
+	}
 }
 
 type opSpec struct {
@@ -319,6 +331,7 @@ type opSpec struct {
 	usesRight  bool
 	usesBounds bool
 	goMap      bool
+	userFn     bool          // the operator takes a user function, so fault episodes apply
 	canon      func(int) int // raw-value outputs under a coarse equal are compared through this
 	build      func(w *world)
 	plain      func(prev, cur inputs) obs
@@ -354,9 +367,9 @@ func genSpec(r *hx.Rand, kind string) opSpec {
 	switch kind {
 	case "MapValues":
 		fp := genF(r, e, want)
-		return opSpec{name: kind, coq: fmt.Sprintf("KMapValues %d %s", e, fp.coq()), respects: respectsEq(e, fp[1], fp[3]),
+		return opSpec{name: kind, coq: fmt.Sprintf("KMapValues %d %s", e, fp.coq()), userFn: true, respects: respectsEq(e, fp[1], fp[3]),
 			build: func(w *world) {
-				n := mapi.MapValues(w.g, w.left, eqOf(e), fOf(fp))
+				n := mapi.MapValues(w.g, w.left, eqOf(e), func(k, v int) int { w.hit(k); return fOf(fp)(k, v) })
 				w.node, w.observe, w.read = n, observeFn(w.g, n), func() obs { return obs{pmEntries(n.Value())} }
 			},
 			plain: func(_, cur inputs) obs {
@@ -368,10 +381,10 @@ func genSpec(r *hx.Rand, kind string) opSpec {
 			}}
 	case "FilterMapValues":
 		fp, pp := genF(r, e, want), genP(r, e, want)
-		return opSpec{name: kind, coq: fmt.Sprintf("KFilterMapValues %d %s %s", e, fp.coq(), pp.coq()),
+		return opSpec{name: kind, coq: fmt.Sprintf("KFilterMapValues %d %s %s", e, fp.coq(), pp.coq()), userFn: true,
 			respects: respectsEq(e, fp[1], fp[3]) && respectsEq(e, pp[1], pp[2]),
 			build: func(w *world) {
-				n := mapi.FilterMapValues(w.g, w.left, eqOf(e), func(k, v int) (int, bool) { return fOf(fp)(k, v), pOf(pp)(k, v) })
+				n := mapi.FilterMapValues(w.g, w.left, eqOf(e), func(k, v int) (int, bool) { w.hit(k); return fOf(fp)(k, v), pOf(pp)(k, v) })
 				w.node, w.observe, w.read = n, observeFn(w.g, n), func() obs { return obs{pmEntries(n.Value())} }
 			},
 			plain: func(_, cur inputs) obs {
@@ -393,10 +406,11 @@ func genSpec(r *hx.Rand, kind string) opSpec {
 				break
 			}
 		}
-		return opSpec{name: kind, coq: fmt.Sprintf("KMerge %d %d %s", e, eR, mp.coq()), usesRight: true,
+		return opSpec{name: kind, coq: fmt.Sprintf("KMerge %d %d %s", e, eR, mp.coq()), userFn: true, usesRight: true,
 			respects: respectsEq(e, mp[0], mp[5]) && respectsEq(eR, mp[2], mp[5]),
 			build: func(w *world) {
 				n := mapi.Merge(w.g, w.left, w.right, eqOf(e), eqOf(eR), func(k int, el mapi.MergeElement[int, int]) (int, bool) {
+					w.hit(k)
 					return mPlain(mp, k, el.Left, el.HasLeft, el.Right, el.HasRight)
 				})
 				w.node, w.observe, w.read = n, observeFn(w.g, n), func() obs { return obs{pmEntries(n.Value())} }
@@ -418,11 +432,11 @@ func genSpec(r *hx.Rand, kind string) opSpec {
 	case "UnorderedFold":
 		fp := genF(r, e, want)
 		initial := r.Intn(3)
-		return opSpec{name: kind, coq: fmt.Sprintf("KUnorderedFold %d %d %s", e, initial, fp.coq()), respects: respectsEq(e, fp[1], fp[3]),
+		return opSpec{name: kind, coq: fmt.Sprintf("KUnorderedFold %d %d %s", e, initial, fp.coq()), userFn: true, respects: respectsEq(e, fp[1], fp[3]),
 			build: func(w *world) {
 				n := mapi.UnorderedFold(w.g, w.left, initial, eqOf(e),
-					func(acc, k, v int) int { return acc + fOf(fp)(k, v) },
-					func(acc, k, v int) int { return acc - fOf(fp)(k, v) })
+					func(acc, k, v int) int { w.hit(k); return acc + fOf(fp)(k, v) },
+					func(acc, k, v int) int { w.hit(k); return acc - fOf(fp)(k, v) })
 				w.node, w.observe, w.read = n, observeFn(w.g, n), func() obs { return scalar(n.Value()) }
 			},
 			plain: func(_, cur inputs) obs {
@@ -454,9 +468,9 @@ func genSpec(r *hx.Rand, kind string) opSpec {
 			plain: func(_, cur inputs) obs { return scalar(len(cur.L)) }}
 	case "Counti":
 		pp := genP(r, e, want)
-		return opSpec{name: kind, coq: fmt.Sprintf("KCounti %d %s", e, pp.coq()), respects: respectsEq(e, pp[1], pp[2]),
+		return opSpec{name: kind, coq: fmt.Sprintf("KCounti %d %s", e, pp.coq()), userFn: true, respects: respectsEq(e, pp[1], pp[2]),
 			build: func(w *world) {
-				n := mapi.Counti(w.g, w.left, eqOf(e), pOf(pp))
+				n := mapi.Counti(w.g, w.left, eqOf(e), func(k, v int) bool { w.hit(k); return pOf(pp)(k, v) })
 				w.node, w.observe, w.read = n, observeFn(w.g, n), func() obs { return scalar(n.Value()) }
 			},
 			plain: func(_, cur inputs) obs {
@@ -471,9 +485,9 @@ func genSpec(r *hx.Rand, kind string) opSpec {
 	case "Reduce":
 		fp := fparams{r.Intn(3), r.Intn(4), r.Intn(3), 1}
 		comb, empty := r.Intn(5), r.Intn(3)-1
-		return opSpec{name: kind, coq: fmt.Sprintf("KReduce %s %s %d", hx.Z(int64(empty)), fp.coq(), comb), respects: true,
+		return opSpec{name: kind, coq: fmt.Sprintf("KReduce %s %s %d", hx.Z(int64(empty)), fp.coq(), comb), userFn: true, respects: true,
 			build: func(w *world) {
-				n := mapi.Reduce(w.g, w.left, empty, fOf(fp), combOf(comb))
+				n := mapi.Reduce(w.g, w.left, empty, func(k, v int) int { w.hit(k); return fOf(fp)(k, v) }, combOf(comb))
 				w.node, w.observe, w.read = n, observeFn(w.g, n), func() obs { return scalar(n.Value()) }
 			},
 			plain: func(_, cur inputs) obs {
@@ -536,9 +550,9 @@ func genSpec(r *hx.Rand, kind string) opSpec {
 			}}
 	case "Partition":
 		pp := genP(r, e, want)
-		return opSpec{name: kind, coq: fmt.Sprintf("KPartition %d %s", e, pp.coq()), respects: respectsEq(e, pp[1], pp[2]), canon: canonOf(e),
+		return opSpec{name: kind, coq: fmt.Sprintf("KPartition %d %s", e, pp.coq()), userFn: true, respects: respectsEq(e, pp[1], pp[2]), canon: canonOf(e),
 			build: func(w *world) {
-				n := mapi.Partition(w.g, w.left, eqOf(e), pOf(pp))
+				n := mapi.Partition(w.g, w.left, eqOf(e), func(k, v int) bool { w.hit(k); return pOf(pp)(k, v) })
 				w.node, w.observe = n, observeFn(w.g, n)
 				w.read = func() obs { return obs{pmEntries(n.Value().Matching), pmEntries(n.Value().NotMatching)} }
 			},
